@@ -171,3 +171,108 @@ Proof.
   destruct (matrix_is_diagonal (atoms_of s cplx A)) eqn:E; [|reflexivity].
   cbn. now apply (diagonal_sound s cplx A Hdia).
 Qed.
+
+(* ------------------------------------------------------------------ the tolerance of np.allclose made explicit *)
+From Coq Require Import Lqa.
+
+Lemma offdiag_within_spec tol A :
+  offdiag_within tol A = true <->
+  forall i j, (i < length A)%nat -> (j < ncols A)%nat -> i <> j -> c_within tol (mget A i j) = true.
+Proof.
+  unfold offdiag_within. rewrite forallb_forall. split.
+  - intros H i j Hi Hj Hij.
+    assert (Hin : In i (seq 0 (length A))) by (apply in_seq; lia).
+    specialize (H i Hin). rewrite forallb_forall in H.
+    assert (Hjn : In j (seq 0 (ncols A))) by (apply in_seq; lia).
+    specialize (H j Hjn). apply orb_true_iff in H. destruct H as [H|H]; [|exact H].
+    apply Nat.eqb_eq in H. contradiction.
+  - intros H i Hi. apply in_seq in Hi. rewrite forallb_forall. intros j Hj. apply in_seq in Hj.
+    destruct (Nat.eqb i j) eqn:E; [reflexivity|]. cbn. apply Nat.eqb_neq in E. apply H; lia.
+Qed.
+
+(* sound direction: one off-diagonal entry above the tolerance and the matrix is not called diagonal (any
+   container but the dia_matrix fast path, which does not look at the entries at all) *)
+Theorem diagonal_tol_sound tol s cplx A i j :
+  st_isdia s = false -> (i < length A)%nat -> (j < ncols A)%nat -> i <> j ->
+  c_within tol (mget A i j) = false ->
+  matrix_is_diagonal (atoms_of_tol tol s cplx A) = false.
+Proof.
+  intros Hs Hi Hj Hij Hbig.
+  assert (E : matrix_is_diagonal (atoms_of_tol tol s cplx A) = offdiag_within tol A)
+    by (destruct s; cbn in *; try discriminate; reflexivity).
+  rewrite E. destruct (offdiag_within tol A) eqn:W; [|reflexivity].
+  rewrite (proj1 (offdiag_within_spec tol A) W i j Hi Hj Hij) in Hbig. discriminate.
+Qed.
+
+Lemma zero_within tol z : (0 <= tol)%Q -> ceqb z c0 = true -> c_within tol z = true.
+Proof.
+  intros Ht H. unfold ceqb in H. apply andb_true_iff in H. destruct H as [H1 H2].
+  apply Qeq_bool_iff in H1, H2. cbn in H1, H2.
+  unfold c_within, cabs2. apply Qle_bool_iff. rewrite H1, H2. nra.
+Qed.
+
+(* an exactly diagonal matrix is recognised at every non-negative tolerance *)
+Theorem offdiag_zero_within tol A : (0 <= tol)%Q -> offdiag_zero A = true -> offdiag_within tol A = true.
+Proof.
+  intros Ht H. apply offdiag_within_spec. intros i j Hi Hj Hij.
+  apply zero_within; [exact Ht|]. exact (proj1 (offdiag_zero_spec A) H i j Hi Hj Hij).
+Qed.
+
+(* on (Gaussian) integer entries a tolerance below 1 is the exact test: why np.allclose(x, 0) is read as x = 0 in
+   the correspondence on integer-valued matrices *)
+Lemma integer_within tol z :
+  (0 <= tol)%Q -> (tol < 1)%Q -> c_integer z = true -> c_within tol z = ceqb z c0.
+Proof.
+  intros Ht Ht1 Hz. destruct z as [[n dn] [m dm]]. unfold c_integer, q_integer in Hz. cbn [fst snd Qden] in Hz.
+  apply andb_true_iff in Hz. destruct Hz as [Hn Hm]. apply Pos.eqb_eq in Hn, Hm. subst dn dm.
+  assert (Ecabs : (cabs2 (n # 1, m # 1) == inject_Z (n * n + m * m))%Q).
+  { unfold cabs2, Qeq, inject_Z. cbn. ring. }
+  assert (Ht2 : (tol * tol < 1)%Q) by nra.
+  unfold c_within, ceqb, c0. cbn [fst snd].
+  destruct (Z.eq_dec n 0) as [En|En]; [destruct (Z.eq_dec m 0) as [Em|Em]|].
+  - subst. cbn. apply Qle_bool_iff. unfold cabs2. cbn. nra.
+  - replace (Qeq_bool (m # 1) 0) with false by (symmetry; apply not_true_iff_false; intro H; apply Qeq_bool_iff in H; unfold Qeq in H; cbn in H; lia).
+    rewrite andb_false_r. apply not_true_iff_false. intro H. apply Qle_bool_iff in H. rewrite Ecabs in H.
+    assert (1 <= n * n + m * m)%Z by nia.
+    assert (1 <= inject_Z (n * n + m * m))%Q by (rewrite Zle_Qle in H0; exact H0). lra.
+  - replace (Qeq_bool (n # 1) 0) with false by (symmetry; apply not_true_iff_false; intro H; apply Qeq_bool_iff in H; unfold Qeq in H; cbn in H; lia).
+    cbn. apply not_true_iff_false. intro H. apply Qle_bool_iff in H. rewrite Ecabs in H.
+    assert (1 <= n * n + m * m)%Z by nia.
+    assert (1 <= inject_Z (n * n + m * m))%Q by (rewrite Zle_Qle in H0; exact H0). lra.
+Qed.
+
+(* K06: the absolute tolerance misclassifies a well-conditioned matrix of tiny magnitude, and the decision table then
+   returns a solver whose documented class does not contain the matrix *)
+Definition k06_witness : cmat :=
+  rmat [[4 # 1000000000; 1 # 1000000000; 0]; [2 # 1000000000; 5 # 1000000000; 2 # 1000000000];
+        [0; 3 # 1000000000; 6 # 1000000000]]%Q.
+
+Theorem tolerance_misclassifies :
+  offdiag_zero k06_witness = false /\ m_symmetric k06_witness = false /\
+  matrix_is_diagonal (atoms_of_tol atol8 SDense false k06_witness) = true /\
+  matrix_is_diagonal (atoms_of_tol atol8 SSparse false k06_witness) = true /\
+  matrix_is_symmetric (atoms_of_tol atol8 SSparse false k06_witness) = true /\
+  auto_on_tol atol8 SDense false k06_witness false false false None None None None = KDiagonal /\
+  auto_on_tol atol8 SSparse false k06_witness false false false None None None None = KDiagonal /\
+  admissible KDiagonal (mclass_of SDense false k06_witness false) = false /\
+  admissible KDiagonal (mclass_of SSparse false k06_witness false) = false.
+Proof. vm_compute. repeat split. Qed.
+
+Lemma mget_integer A i j : m_integer A = true -> c_integer (mget A i j) = true.
+Proof.
+  intros H. unfold mget. unfold m_integer in H. rewrite forallb_forall in H.
+  destruct (nth_in_or_default i A []) as [Hin|Hd].
+  - specialize (H _ Hin). rewrite forallb_forall in H.
+    destruct (nth_in_or_default j (nth i A []) c0) as [Hin2|Hd2]; [apply H; exact Hin2 | rewrite Hd2; reflexivity].
+  - rewrite Hd. destruct j; reflexivity.
+Qed.
+
+Theorem integer_matrix_exact_reading tol A :
+  (0 <= tol)%Q -> (tol < 1)%Q -> m_integer A = true -> offdiag_within tol A = offdiag_zero A.
+Proof.
+  intros Ht Ht1 Hint. apply eq_true_iff_eq.
+  rewrite offdiag_within_spec, offdiag_zero_spec.
+  split; intros H i j Hi Hj Hij; specialize (H i j Hi Hj Hij).
+  - rewrite <- (integer_within tol _ Ht Ht1 (mget_integer A i j Hint)). exact H.
+  - rewrite (integer_within tol _ Ht Ht1 (mget_integer A i j Hint)). exact H.
+Qed.
